@@ -460,15 +460,20 @@ class SSHKnownHosts:
             N/A
 
         """
-        # match any non whitespace from start of the line... this should cover v4/v6/names
-        # skip a space and match any word (also w/ hyphen) to get key type, lastly
-        # match any non whitespace to the end of the line to get the public key
-        host_pattern = re.compile(r"^\S+\s[\w\-]+\s\S+$", flags=re.I | re.M)
+        # a line is "hosts keytype key [comment...]" with the fields separated by any run of blanks
+        # or tabs: match any non whitespace to get the host(s)... this should cover v4/v6/names,
+        # then the key type (word characters, hyphens, and "@"/"." as in
+        # sk-ssh-ed25519@openssh.com), then any non whitespace to get the public key; whatever
+        # follows the key is a comment. lines starting with "#" are comments, lines starting with
+        # "@" carry a marker (@cert-authority/@revoked) -- such a key is not a key to trust for the
+        # hosts on that line (a revoked one certainly not), so those lines are skipped
+        host_pattern = re.compile(
+            r"^[ \t]*(?![#@])(\S+)[ \t]+([\w\-@.]+)[ \t]+(\S+)(?:[ \t].*)?$", flags=re.I | re.M
+        )
         host_entries = re.findall(pattern=host_pattern, string=self.ssh_known_hosts)
 
         known_hosts: Dict[str, Dict[str, str]] = {}
-        for host_entry in host_entries:
-            host, key_type, public_key = host_entry.split()
+        for host, key_type, public_key in host_entries:
             # to simplify lookups down the line, split any list of hosts and just create a unique
             # entry per host
             for individual_host in host.split(","):
